@@ -17,6 +17,9 @@ import time
 
 VERIF = os.path.dirname(os.path.dirname(os.path.abspath(__file__)))
 BENIGN = os.path.join(VERIF, "benign")
+# the checks build against ../../repo relative to the harness: a scratch copy of /verif next to a
+# worktree of /repo can run these without occupying /repo itself
+REPO = os.environ.get("AGV_REPO", "/repo")
 
 
 def sh(cmd, **kw):
@@ -46,7 +49,7 @@ def main():
         args = [a for a in args if a != tier]
     every = "--all" in sys.argv
     ids = args or sorted(d for d in os.listdir(BENIGN) if os.path.isfile(os.path.join(BENIGN, d, "patch.diff")))
-    st = sh(["git", "-C", "/repo", "status", "--porcelain"]).stdout.strip()
+    st = sh(["git", "-C", REPO, "status", "--porcelain"]).stdout.strip()
     if st:
         print("refusing: /repo has uncommitted changes:\n" + st)
         return 2
@@ -64,11 +67,11 @@ def main():
             if pid not in pids and (every or files & touched):
                 pids.append(pid)
         pids = [p for p in pids if p in claimed]
-        ap = sh(["git", "-C", "/repo", "apply", patch])
+        ap = sh(["git", "-C", REPO, "apply", patch])
         if ap.returncode != 0:
             print(f"{bid}: patch does not apply: {ap.stderr[:300]}")
             results[bid] = {"applied": False, "error": ap.stderr[:500]}
-            sh(["git", "-C", "/repo", "checkout", "--", "."])
+            sh(["git", "-C", REPO, "checkout", "--", "."])
             continue
         entry = {"applied": True, "files": sorted(touched), "checks": {}}
         saved = {}
@@ -77,7 +80,7 @@ def main():
             if os.path.exists(ev):
                 saved[ev] = open(ev).read()
         before = set(all_replays())
-        untracked_before = set(sh(["git", "-C", "/repo", "ls-files", "--others", "--exclude-standard"]).stdout.split())
+        untracked_before = set(sh(["git", "-C", REPO, "ls-files", "--others", "--exclude-standard"]).stdout.split())
         try:
             for pid in pids:
                 t = time.time()
@@ -97,10 +100,10 @@ def main():
                     if not vio:
                         open(os.path.join(keep, f"{pid}.log"), "w").write(r.stdout[-8000:] + r.stderr[-4000:])
         finally:
-            sh(["git", "-C", "/repo", "reset", "-q", "HEAD", "--", "."])
-            sh(["git", "-C", "/repo", "checkout", "--", "."])
-            for f in set(sh(["git", "-C", "/repo", "ls-files", "--others", "--exclude-standard"]).stdout.split()) - untracked_before:
-                os.remove(os.path.join("/repo", f))
+            sh(["git", "-C", REPO, "reset", "-q", "HEAD", "--", "."])
+            sh(["git", "-C", REPO, "checkout", "--", "."])
+            for f in set(sh(["git", "-C", REPO, "ls-files", "--others", "--exclude-standard"]).stdout.split()) - untracked_before:
+                os.remove(os.path.join(REPO, f))
         for ev, txt in saved.items():
             open(ev, "w").write(txt)
         for f in set(all_replays()) - before:
